@@ -1,5 +1,5 @@
 (* Dispatcher for C01: dft2 / idft2 on the group ring Q(i)[C_L]; the case supplies L. *)
-From LV Require Import Lib.Codec Model.Dft Model.DftOut.
+From LV Require Import Lib.Codec Model.Dft Model.DftOut Model.DftApi.
 Require Import ExtrOcamlBasic.
 
 Definition pout (L : nat) : parser (option (dtype * arr (GRS L))) :=
@@ -7,6 +7,20 @@ Definition pout (L : nat) : parser (option (dtype * arr (GRS L))) :=
   if t =? 0 then pret None
   else n <- pZ ;; m <- pZ ;;
        pret (Some ((if t =? 1 then Complex128 else if t =? 2 then Float64 else OtherComplex), azeros n m)).
+
+(* argument forms of the public entry points: 0 v = scalar, 1 k v1..vk = sequence, 2 = two or more dimensions *)
+Definition pform {A} (p : parser A) : parser (argform A) :=
+  t <- pZ ;;
+  if t =? 0 then (a <- p ;; pret (FScalar a))
+  else if t =? 1 then (l <- plist p ;; pret (FSeq l))
+  else pret FNested.
+Definition pinput (L : nat) : parser (input (GRS L)) :=
+  r <- pZ ;; if r =? 2 then (a <- parr L ;; pret (In2 a)) else pret (InRank r).
+Definition poutbuf : parser (option outbuf) :=
+  t <- pZ ;;
+  if t =? 0 then pret None
+  else d <- pZ ;; cg <- pbool ;; n <- pZ ;; m <- pZ ;;
+       pret (Some (mkOut (if d =? 0 then OComplex128 else if d =? 1 then ONoComplex else OOther) cg n m)).
 
 Definition run (inp : list Z) : list Z :=
   match inp with
@@ -36,6 +50,13 @@ Definition run (inp : list Z) : list Z :=
           if (m <=? 0) || (n <=? 0) then emalformed else
           let ar := (/ zq m)%Qc in let ac := (/ zq n)%Qc in
           0 :: earr L (idft2 (S := GRS L) sq (dft2 (S := GRS L) sq f ar ac m n 0%Qc 0%Qc 0 0 un) ar ac m n 0%Qc 0%Qc un)
+      | None => emalformed end
+    else if (op =? 5) || (op =? 6) then   (* the entry points with argument forms, defaults and refusals *)
+      match pall (f <- pinput L ;; al <- pform pQ ;; sh <- popt (pform pZ) ;; st <- pform pQ ;; off <- pform pZ ;;
+                  un <- pbool ;; o <- poutbuf ;; pret (f, al, sh, st, off, un, o)) rest with
+      | Some (f, al, sh, st, off, un, o) =>
+          eresult (earr L) (if op =? 5 then dft2_api (S := GRS L) sq f al sh st off un o
+                            else idft2_api (S := GRS L) sq f al sh st un o)
       | None => emalformed end
     else emalformed
   | _ => emalformed
